@@ -340,15 +340,19 @@ def check_case(case):
 
 
 def variants(shape, labels, reduced):
+    """full (words with <=3 contexts): modes with/deco/mixed x every boundary x {E top, E parent, B top, S top};
+    reduced (4 and 5 contexts): modes with/deco x every boundary x E top, with-mode also E parent; B/S only at the innermost body."""
     n = count_nodes(shape)
-    modes = ["with", "deco"] + (["mixed"] if depth(shape) >= 2 and not reduced and n <= 3 else [])
+    modes = ["with", "deco"] + (["mixed"] if depth(shape) >= 2 and not reduced else [])
     for mode in modes:
         yield dict(shape=shape, labels=labels, mode=mode, inject=None, full=True)
         for p in range(1, 2 * n):
+            if reduced == 2 and mode == "deco" and p != n:
+                continue  # 4/5-context words in the thorough tier: decorators get the no-exception run and one injection
             yield dict(shape=shape, labels=labels, mode=mode, inject=p, catch="top", exc="E")
             if mode == "with" or not reduced:
                 yield dict(shape=shape, labels=labels, mode=mode, inject=p, catch="parent", exc="E")
-            if not reduced:
+            if not reduced or (p == n and mode == "with"):
                 for k in ("B", "S"):
                     yield dict(shape=shape, labels=labels, mode=mode, inject=p, catch="top", exc=k)
 
@@ -358,27 +362,30 @@ def words(tier):
     small = []
     for n in range(1, 4):
         small += list(forests(n))
-    small.append(chain(4))
-    big = []
+    big = [chain(4)]
+    level = 1
     if tier != "quick":
         big = [f for f in forests(4) if f != chain(4)] + [chain(5)]
+        small.append(chain(4))
+        level = 2
     for shape in small:
         for labels in itertools.product(LABELS, repeat=count_nodes(shape)):
             yield shape, list(labels), False
     for shape in big:
         for labels in itertools.product(LABELS, repeat=count_nodes(shape)):
-            yield shape, list(labels), True
+            yield shape, list(labels), level
 
 
 def bounds(tier):
     return dict(
         contexts=LABELS,
-        words_full_variants="all labelled forests with <=3 contexts + all chains of depth 4",
-        words_reduced_variants=("all labelled forests with 4 contexts + all chains of depth 5" if tier != "quick" else "none"),
+        words_full_variants="all labelled forests with <=3 contexts" + (" + all chains of depth 4" if tier != "quick" else ""),
+        words_reduced_variants=("all labelled forests with 4 contexts + all chains of depth 5" if tier != "quick" else "all chains of depth 4"),
         full_variants="modes {with, deco, mixed(alternating by depth; words with <=3 contexts)} x (no exception + every event boundary 1..2n-1 x "
         "{Exception caught at top, Exception caught just outside the innermost open context then continue, "
         "BaseException at top, StopIteration at top})",
-        reduced_variants="modes {with, deco} x (no exception + every boundary x Exception at top; with-mode also caught-by-parent)",
+        reduced_variants="modes {with, deco} x (no exception + every boundary x Exception at top; with-mode also caught-by-parent; BaseException / StopIteration in the innermost body, with-mode)"
+        + ("; thorough 4/5-context words: decorator mode = no-exception run + injection in the innermost body" if tier != "quick" else ""),
         probes_full=5,
         probes_after_exception=2,
         fresh_objects="memoize() and AdjointTape() are created per entry (an AdjointTape is not re-entered while active)",
@@ -406,14 +413,14 @@ def work(chunk):
                     res.evaluations += 1
                     res.contracts[c] += 1
             for c, d, tags in viol:
-                res.fail(c, case, d, REPLAY(case), tags)
+                res.fail(c, case, d, REPLAY(case, c), tags)
     return res
 
 
-def REPLAY(case):
+def REPLAY(case, contract=None):
     import misc_util
 
-    return misc_util.module_replay(sys.modules[__name__], case)
+    return misc_util.module_replay(sys.modules[__name__], case, contract=contract)
 
 
 def run(res, tier, seed, jobs):
